@@ -19,7 +19,17 @@ def main():
         try:
             dim = case['dim']
             patches = []
-            for pt in case['patches']:
+            if case.get('kind') == 'ring':
+                # k annulus sectors of angle 2*pi/k (NURBS), sector i rotated by i*2*pi/k: for k = 2 the
+                # two patches share TWO faces
+                k = case['k']
+                sector = geometry.outer_product(geometry.circular_arc(2 * np.pi / k), geometry.line_segment(case['r1'], case['r2']))
+                for i in case['order']:
+                    geo = sector if i == 0 else sector.rotate_2d(i * 2 * np.pi / k)
+                    kvs = (bspline.make_knots(case['p'], 0.0, 1.0, case['nspans'][0]),
+                           bspline.make_knots(case['p'], 0.0, 1.0, case['nspans'][1]))
+                    patches.append((kvs, geo))
+            for pt in ([] if case.get('kind') == 'ring' else case['patches']):
                 # axis-aligned box [lo, hi] in physical (x, y(, z)) order, parametrised over [0,1]^dim
                 # with optional reversal of the parametrisation per axis
                 g = geometry.unit_square() if dim == 2 else geometry.unit_cube()
